@@ -52,6 +52,7 @@ type Ctx struct {
 
 	meta     Meta
 	cases    []string
+	weights  []int
 	descs    []interface{}
 	distinct map[string]bool
 }
@@ -60,7 +61,16 @@ func (c *Ctx) Quick() bool { return c.Tier != "thorough" }
 
 // AddCase appends one case (a Coq term of type `case`) with a JSON-able
 // description used for replay files.
-func (c *Ctx) AddCase(term string, desc interface{}) {
+func (c *Ctx) AddCase(term string, desc interface{}) { c.AddCaseW(term, desc, 1) }
+
+// AddCaseW is AddCase with a relative evaluation cost (1 = a small case; a case
+// moving a MiB through the model costs a few hundred); case files are cut so
+// that each stays below ~300 units, which lets bin/check evaluate them in parallel.
+func (c *Ctx) AddCaseW(term string, desc interface{}, weight int) {
+	if weight < 1 {
+		weight = 1
+	}
+	c.weights = append(c.weights, weight)
 	c.cases = append(c.cases, term)
 	c.descs = append(c.descs, desc)
 	c.meta.Evaluations++
@@ -105,10 +115,11 @@ func (c *Ctx) flush() error {
 		per = 300
 	}
 	c.meta.CaseIndex = map[string][]interface{}{}
-	for i, k := 0, 0; i < len(c.cases); i, k = i+per, k+1 {
-		j := i + per
-		if j > len(c.cases) {
-			j = len(c.cases)
+	for i, k := 0, 0; i < len(c.cases); k++ {
+		j, wsum := i, 0
+		for j < len(c.cases) && j-i < per && (j == i || wsum+c.weights[j] <= 300) {
+			wsum += c.weights[j]
+			j++
 		}
 		name := fmt.Sprintf("cases_%d.v", k)
 		var b strings.Builder
@@ -129,6 +140,7 @@ func (c *Ctx) flush() error {
 		}
 		c.meta.CaseFiles = append(c.meta.CaseFiles, name)
 		c.meta.CaseIndex[name] = c.descs[i:j]
+		i = j
 	}
 	c.meta.DistinctNontrivial = len(c.distinct)
 	js, err := json.MarshalIndent(&c.meta, "", " ")
